@@ -1031,6 +1031,13 @@ ctx_probe!(ctx_tables, |c, d, e, f| {
     let i0 = sidt();
     load_tss(SegmentSelector(c as u16));
     let (g1, i1) = (sgdt(), sidt());
+    // the wrappers against hand-written reference stores
+    let (mut rg, mut ri) = ([0u8; 16], [0u8; 16]);
+    core::arch::asm!("sgdt [{}]", in(reg) rg.as_mut_ptr(), options(nostack, preserves_flags));
+    core::arch::asm!("sidt [{}]", in(reg) ri.as_mut_ptr(), options(nostack, preserves_flags));
+    let lim = |b: &[u8; 16]| u16::from_le_bytes([b[0], b[1]]);
+    let bas = |b: &[u8; 16]| u64::from_le_bytes([b[2], b[3], b[4], b[5], b[6], b[7], b[8], b[9]]);
+    assert!({ g1.limit } == lim(&rg) && { g1.base }.as_u64() == bas(&rg) && { i1.limit } == lim(&ri) && { i1.base }.as_u64() == bas(&ri));
     assert!({ g0.limit } == { g1.limit } && { g0.base } == { g1.base } && { i0.limit } == { i1.limit } && { i0.base } == { i1.base });
     // the same pointer loaded twice is loaded twice
     let p3 = DescriptorTablePointer { limit: e as u16, base: VirtAddr::new_truncate(f) };
@@ -1484,6 +1491,17 @@ fn lean_wi_carry_v(counter: &mut u64, by: u64, wraps: &mut u32) {
         *wraps += 1;
     }
 }
+/// a TSS descriptor is stored into the GDT right before `load_tss` and read back after it: `ltr` sets its busy bit
+#[inline(never)]
+fn lean_ltr_busy(gdt: *mut u64, lo: u64, hi: u64) -> (u64, u64) {
+    // (a raw pointer: the table is shared with the processor, a `&mut` would promise that nothing else touches it)
+    unsafe {
+        *gdt.add(3) = lo;
+        *gdt.add(4) = hi;
+        load_tss(SegmentSelector(3 << 3));
+        (*gdt.add(3), *gdt.add(4))
+    }
+}
 #[inline(never)]
 pub extern "C" fn lean_port_w32(_x: u64, _y: u64, value: u32, port: u16) {
     unsafe { x86_64::instructions::port::Port::<u32>::new(port).write(value) };
@@ -1512,6 +1530,22 @@ pub fn run_ctx(out: &mut Out, r: &mut Rng, only: &str) {
         let ins = cpu::drain();
         if l_regs {
         out.emit(Ev::new("lean").str("name", "cr4_carry").words("args", &[base, off, cr4]).str("k", if ok { "ok" } else { "panic" }).words("got", &[0, 0]).raw("instrs", &cpu::instrs_json(&ins)));
+        }
+        if l_regs {
+            // an available 64-bit TSS descriptor (type 9, present) with random base / limit bits
+            let lo = (r.next() & !(0x1f << 40)) | (9 << 40) | (1 << 47);
+            let hi = r.next() & 0xffff_ffff;
+            let mut gdt = Box::new([0u64; 8]);
+            let ptr = x86_64::structures::DescriptorTablePointer { limit: 63, base: VirtAddr::new(gdt.as_ptr() as u64) };
+            unsafe { x86_64::instructions::tables::lgdt(&ptr) };
+            cpu::drain();
+            cpu::LTR_MARKS_BUSY.store(1, std::sync::atomic::Ordering::SeqCst);
+            let gp = gdt.as_mut_ptr();
+            let got = catch(|| lean_ltr_busy(gp, lo, hi));
+            cpu::LTR_MARKS_BUSY.store(0, std::sync::atomic::Ordering::SeqCst);
+            let ins = cpu::drain();
+            let (g0, g1) = got.unwrap_or((0, 0));
+            out.emit(Ev::new("lean").str("name", "ltr_busy").words("args", &[lo, hi, 0]).str("k", if got.is_some() { "ok" } else { "panic" }).words("got", &[g0, g1]).raw("instrs", &cpu::instrs_json(&ins)));
         }
         if l_intr {
         let (mut counter, mut wraps) = (base, 5u32);
